@@ -35,6 +35,20 @@ void registerNet(std::map<std::string, Op>& ops)
             return "ok " + f + " print=" + toHex(printed) + " rp=" + rp;
         } catch (const std::exception& e) { return "err " + excClass(e).substr(4); }
     };
+    // addrhp <hexhost> <port>: the (host, Port) constructor
+    ops["addrhp"] = [](const std::vector<std::string>& w) -> std::string {
+        std::string in; if (w.size() != 3 || !fromHex(w[1], in)) return "bad-op";
+        try {
+            Address a(in, Port(static_cast<uint16_t>(atoi(w[2].c_str()))));
+            std::string printed; std::string f = addrFields(a, printed);
+            std::string rp = "0";
+            try {
+                Address b(printed); std::string p2;
+                if (addrFields(b, p2) == f) rp = "1";
+            } catch (const std::exception&) { rp = "0"; }
+            return "ok " + f + " print=" + toHex(printed) + " rp=" + rp;
+        } catch (const std::exception& e) { return "err " + excClass(e).substr(4); }
+    };
     ops["addrp"] = [](const std::vector<std::string>& w) -> std::string {
         std::string in; if (w.size() != 2 || !fromHex(w[1], in)) return "bad-op";
         try {
